@@ -151,7 +151,7 @@ class Evaluator:
         rels = []
         for k, idx in enumerate(groups):
             txt = self.HDR + self._defs([self.goals[i][0] + self.goals[i][1] for i in idx]) + \
-                ''.join(f'Lemma vfeq_{i} : ({self.goals[i][0]}) = ({self.goals[i][1]}).\nProof. vm_compute. reflexivity. Qed.\n' for i in idx)
+                ''.join(f'Lemma vfeq_{i} : ({self.goals[i][0]}) = ({self.goals[i][1]}).\nProof. vm_compute. match goal with |- ?a = ?a => reflexivity | _ => fail "the two sides differ" end. Qed.\n' for i in idx)
             rel = f'Cases_C14_{tag}_{k}.v'
             ctx.write(rel, txt)
             rels.append(rel)
@@ -348,7 +348,7 @@ def uni_cases(rng, quick):
     add('GaussianUnivariate', 'GaussianUnivariate()', 'underflow', np.array([0.0, 1e-320]), {}, tag=':std-underflow')
     if not quick:
         for fam in fams:
-            for _ in range(3):
+            for _ in range(8):
                 for kind in ('nonconst', 'const'):
                     add(fam, f'{fam}()', kind, uni_data(rng, fam, kind), {}, tag=f':r{len(out)}')
             add(fam, f'{fam}()', 'nonconst', uni_data(rng, fam, 'nonconst'), {}, extra_fit='m.fit(np.full(4, 1.5))\n',
@@ -1007,7 +1007,7 @@ def gm_cases(rng, quick):
     add('studentt-constant-column', 'GaussianMultivariate(distribution=StudentTUnivariate)', table(n, const=3.0), ['a', 'b', 'c', 'k'],
         {'distribution': 'class'}, known='F25:studentt-constant-roundtrip:gaussian-multivariate')
     if not quick:
-        for i in range(6):
+        for i in range(14):
             fam = S.FAM_ORDER[int(rng.integers(0, 8))]
             add(f'random-{i}-{fam}', f'GaussianMultivariate(distribution={fam})', np.abs(table(int(rng.integers(8, 25)))) + 0.2, ['a', 'b', 'c'],
                 {'distribution': 'class'})
@@ -1154,7 +1154,7 @@ VINE_CHECK = {
 
 def vine_cases(rng, quick):
     out = []
-    shapes = [(12, 4), (10, 3)] if quick else [(12, 4), (10, 3), (20, 5), (25, 4), (12, 3)]
+    shapes = [(12, 4), (10, 3)] if quick else [(12, 4), (10, 3), (20, 5), (25, 4), (12, 3), (16, 5), (30, 3), (14, 4)]
     for n, dd in shapes:
         z = rng.normal(size=(n, dd))
         for j in range(1, dd):
@@ -1392,10 +1392,12 @@ def run(ctx):
         ctx.obligation(f'translate:{name}', name not in bad, 'translation', bad.get(name, ''))
     ctx.extra['key_facts'] = {k: v for k, v in F.items() if isinstance(v, (list, bool))}
     compiled = False
+    ctx.extra['props_compiled'] = False
     if not problems and ensure_vineserial(ctx):
         ctx.write('Gen_serialfacts.v', S.gen_facts_coq(F))
         ctx.copy_src('Props/C14.v')
         compiled = ctx.compile(['Gen_serialfacts.v', 'C14.v'])
+        ctx.extra['props_compiled'] = compiled
     E = Evaluator()
     pend = Pending(ctx, E)
     viol = Viols(ctx)
@@ -1435,7 +1437,7 @@ def run(ctx):
                 run_unfitted_and_dispatch(ctx, pend, E, viol, tmpdir, rng)
             except Exception:       # noqa: BLE001
                 ctx.obligation('harness:unfitted-and-dispatch', False, 'harness', traceback.format_exc()[-1500:])
-            run_biv_fresh(ctx, pend, E, viol, rng, 10 if quick else 60)
+            run_biv_fresh(ctx, pend, E, viol, rng, 10 if quick else 150)
     finally:
         np.random.set_state(saved)
         shutil.rmtree(tmpdir, ignore_errors=True)
